@@ -1581,6 +1581,7 @@ fn compile_tree(files: &Files, entry: &str, tgt: Tgt, mode: &Mode) -> (CompileOu
                     .map(|p| PipeOut {
                         data: p.data,
                         stages: p.stages.iter().map(|s| (format!("{:?}", s.stage), s.entry_point.clone(), s.thread_group_size)).collect(),
+                        slots: slots_of(&p.metadata),
                         metadata: format!("{:?}", p.metadata),
                         state: format!("{:?}", p.graphics_pipeline_state),
                     })
